@@ -636,6 +636,11 @@ class Program:
     def _resolve_call(self, f: Func, call: ast.Call, regvars) -> CallSite:
         fn = call.func
         cs = CallSite(call, f, [])
+        # a local bound once to a registry slot (`dump = format_module.dump_one; dump(...)`) is that slot
+        if isinstance(fn, ast.Name) and regvars and fn.id in getattr(f, "locals", ()) and fn.id not in f.params:
+            defs = [n.value for n in f.own_nodes() if isinstance(n, ast.Assign) and len(n.targets) == 1 and isinstance(n.targets[0], ast.Name) and n.targets[0].id == fn.id]
+            if len(defs) == 1 and isinstance(defs[0], ast.Attribute) and isinstance(defs[0].value, ast.Name) and defs[0].value.id in regvars:
+                fn = defs[0]
         # registry slot: format_module.<op>(...)
         if isinstance(fn, ast.Attribute) and isinstance(fn.value, ast.Name) and fn.value.id in regvars:
             which = regvars[fn.value.id]
